@@ -17,8 +17,8 @@ define: U_PARSE_LINE, VERIF_CONF_ANNOT, VERIF_OWN_STRCMP, VERIF_OWN_STRCHR, VERI
 src: conf.c
 enforce: spifconf_parse_line
 replace: spiftool_chomp, spiftool_get_word, spiftool_get_pword, spifconf_shell_expand, spifconf_open_file, spiftool_temp_file, spifconf_register_context_state, spifconf_register_fstate, v_ctx_lookup
-backend: z3
-timeout: 600
+backend: sat
+timeout: 400
 mem: 16
 objbits: 10
 funcs: v_ctx_lookup, vhandler
